@@ -1740,6 +1740,9 @@ class _Date(Vector):
 		super().__init__(initial, dtype=dtype, name=name, as_row=as_row)
 
 	def _elementwise_compare(self, other, op):
+		if self._dtype is not None and self._dtype.kind is not date:
+			# promoted in place (a datetime was written): no longer a vector of dates
+			return super()._elementwise_compare(other, op)
 		other = self._check_duplicate(other)
 		midnight = datetime.min.time()
 		if isinstance(other, Vector):
